@@ -434,6 +434,7 @@ class Result:
     error: str | None = None
     num_eqns: int = 0
     proved_names: set = field(default_factory=set)
+    audit: dict = field(default_factory=dict)
 
 
 def _emit_cancel(ctx, name, packed, shapes):
@@ -544,6 +545,19 @@ def _bool_syms(b):
             out.extend(a.p.syms())
         elif isinstance(a, B):
             out.extend(_bool_syms(a))
+    return out
+
+
+def _bool_cone(b):
+    """Symbols a boolean expression depends on (through atoms and opaque calls)."""
+    out = set()
+    if not isinstance(b, B):
+        return out
+    for a in b.args:
+        if isinstance(a, V):
+            out |= dependency_cone(a)
+        elif isinstance(a, B):
+            out |= _bool_cone(a)
     return out
 
 
@@ -725,6 +739,37 @@ def _verify(contract, inst, res, seed, tier):
                 ctx.obligations.append({"name": f"ensures.{nm}" + (str(list(ix)).replace(" ", "") if val.shape else ""), "kind": "bool", "goal": ok, "path": [], "n_assm": 0, "side": "frame", "detail": [P.SYMS[b]["name"] for b in bad[:6]]})
             continue
         _emit(ctx, f"ensures.{nm}", kind, val, as_goal=True)
+
+    if os.environ.get("VERIF_OUTPUT_COVERAGE"):
+        # audit: which result leaves does no postcondition clause mention?  (ensures is re-traced with every float
+        # result entry replaced by a probe symbol; a leaf none of whose probes reaches a clause is unconstrained)
+        try:
+            probes, probe_sids = [], []
+            for k, av in enumerate(out_avals):
+                if np.dtype(av.dtype).kind == "f":
+                    arr, sids = prims.fresh_array(tuple(av.shape), f"outprobe{k}_", kind="outprobe")
+                    probes.append(arr)
+                    probe_sids.append(set(int(x) for x in np.asarray(sids).reshape(-1)))
+                else:
+                    probes.append(outs[k])
+                    probe_sids.append(None)
+            sub = interp.Ctx()
+            pvals, _pm = _trace_eval(sub, ens, avals + out_avals, list(sym) + probes)
+            seen = set()
+            for val in pvals:
+                val = val if interp.is_obj(val) else None
+                if val is None:
+                    continue
+                for x in val.reshape(-1):
+                    seen |= dependency_cone(x) if isinstance(x, V) else set(_bool_cone(x))
+            for a in sub.assumptions + sub.obligations:
+                f = a.get("fact", a.get("goal"))
+                seen |= dependency_cone(f) if isinstance(f, V) else (set(_bool_cone(f)) if isinstance(f, B) else set())
+            paths = keypaths(jax.tree_util.tree_unflatten(out_tree, list(range(len(out_static)))))
+            float_paths = [pth for pth, st in zip(paths, out_static) if st is None]
+            res.audit["uncovered_outputs"] = [float_paths[k] if k < len(float_paths) else f"result[{k}]" for k, ps in enumerate(probe_sids) if ps and not (ps & seen)]
+        except Exception as e:  # the audit must never affect the verdict
+            res.audit["uncovered_outputs_error"] = repr(e)[:200]
 
     res.prims_seen = dict(ctx.prims_seen)
     res.num_eqns = ctx.num_eqns
